@@ -571,3 +571,25 @@ pub proof fn lemma_discard_step(s_old: SV, s0: SV, s1: SV)
 pub proof fn lemma_discard_init(s: SV)
   ensures discard_bytes_ok(s, s)
 {}
+
+/// truncate: capacity changes, everything below the cursor is kept => the invariant is kept
+pub proof fn lemma_truncate_wf(a0: AV, a1: AV, s0: SV, s1: SV)
+  requires wf(a0, s0),
+    a1.data_offset == a0.data_offset && a1.ro == a0.ro && a1.freelist == a0.freelist,
+    s0.allocated <= a1.cap <= u32::MAX as int - 8, s1.bytes.len() == a1.cap,
+    s1.allocated == s0.allocated && s1.discarded == s0.discarded && s1.min_seg == s0.min_seg && s1.list == s0.list
+      && s1.sentinel == s0.sentinel && s1.writable == s0.writable && s1.lo == s0.lo,
+    s1.bytes.subrange(0, s0.allocated) == s0.bytes.subrange(0, s0.allocated),
+  ensures wf(a1, s1)
+{
+  assert forall|k: int| 0 <= k < s1.list.len() implies node_ok(a1, s1, #[trigger] s1.list[k]) by { assert(node_ok(a0, s0, s0.list[k])); }
+  assert forall|k: int| -1 <= k < s1.list.len() implies word(s1, #[trigger] cell_of(s1.list, k)) == enc(size_of_cell(s1.list, k), next_of(s1.list, k)) by {
+    assert(word(s0, cell_of(s0.list, k)) == enc(size_of_cell(s0.list, k), next_of(s0.list, k)));
+    if k >= 0 {
+      let o = s0.list[k].0 as int;
+      assert(node_ok(a0, s0, s0.list[k]));
+      assert(s1.bytes.subrange(o, o + 8) =~= s1.bytes.subrange(0, s0.allocated).subrange(o, o + 8));
+      assert(s0.bytes.subrange(o, o + 8) =~= s0.bytes.subrange(0, s0.allocated).subrange(o, o + 8));
+    }
+  }
+}
